@@ -63,6 +63,17 @@ def step (st : Unit) (j : Json) : Unit × List String :=
       let E : Env := { resolve := fun _ => if jBool v "keyfound" && jBool v "ownkey" then some "K" else none, embeddedKey := fun _ => none,
                        verifies := fun _ _ _ => jBool v "verified", verifiesSplit := fun _ _ _ => false }
       parseJWT Facts.C17.supportedAlgs E info
+    | "ldproof" =>
+      let L : LdEnv := { keyAlg := fun _ => if jStr v "keyalg" == "" then none else some (jStr v "keyalg"),
+                         verifiesDetached := fun _ _ => jBool v "verified" }
+      ldProofVerify L "K" (jBool v "canon") (jNat v "parts") (jBool v "sigdecodes")
+    | "vcld" =>
+      let E : Env := { resolve := fun _ => if jBool v "keyfound" then some "K" else none, embeddedKey := fun _ => none,
+                       verifies := fun _ _ _ => false, verifiesSplit := fun _ _ _ => false }
+      let L : LdEnv := { keyAlg := fun _ => if jStr v "keyalg" == "" then none else some (jStr v "keyalg"),
+                         verifiesDetached := fun _ _ => jBool v "verified" }
+      let didOf := fun (kid : String) => (kid.splitOn "#").headD ""
+      vcJsonLdProof E L (jStr j "issuer") (jStr v "vm") didOf (jBool v "validat") (jBool v "canon") (jNat v "parts") (jBool v "sigdecodes")
     | "parsejws" =>
       let found := jBools v "keyfound"
       let ver := jBools v "verified"
